@@ -46,6 +46,7 @@ Proof.
   unfold need_fuel.
   induction fuel as [|fuel IH]; intros s c k x t a s2 a2 e2 Hf H; [lia|].
   simpl in H. destruct (pull_chain _ _ _ _ _) as [[r b] ss'].
+  destruct (is_static_src cs (i_src x)); [inversion H; discriminate|].
   destruct b; [inversion H; destruct (_ && _); discriminate|].
   destruct (is_time cs (fst (i_src x))) eqn:Ts; [inversion H; destruct (_ && _); discriminate|].
   eapply pull_list_nofuel; [|exact H].
@@ -234,7 +235,7 @@ Proof.
       - pose proof (next_time_le cs st c Tc). pose proof (S_of_le_Smax cs c). specialize (H1 eq_refl). lia.
       - specialize (H2 eq_refl). lia. }
     assert (Hlt : lt <= Z.max tgt' (init_of cs (i_src inp))).
-    { unfold link_req in Hr. eapply sched_walk_simple_le; [exact (to_simple cs rank T c k inp Hk)|exact Hr]. }
+    { apply link_req_some in Hr. destruct Hr as [_ Hr]. eapply sched_walk_simple_le; [exact (to_simple cs rank T c k inp Hk)|exact Hr]. }
     replace (X + Z.of_nat (S fuel) * Smax cs) with ((X + Smax cs) + Z.of_nat fuel * Smax cs) by lia.
     destruct Hc as [[Ti Hrec]|[Tp [Hrec _]]]; unfold rec in Hrec; symmetry in Hrec.
     + specialize (Hlag Ti). specialize (Itime src (snd (i_src inp)) Ti).
